@@ -483,6 +483,11 @@ func (c *Chain) NextBlock(in BlockInput) *BlockResult {
 		c.Halted = hi
 		return res
 	}
+	if len(c.currentValidators()) == 0 || (h > 1 && len(c.prevVotes) == 0) {
+		// every validator has left the consensus set (all jailed / unbonded): cometbft itself refuses an empty
+		// validator set, so there is no further block to script. Not a verdict about the application.
+		return fail(&HaltInfo{Phase: "Harness", Err: "the consensus validator set is empty; case cannot continue"})
+	}
 	// last commit (votes of height h-1)
 	var extCommit abci.ExtendedCommitInfo
 	var commit abci.CommitInfo
